@@ -176,7 +176,7 @@ def check_pair(case, ctx):
         ctx.discard('inadmissible segment')
     if s1[0] == 'L' and s2[0] == 'L':
         d1, d2 = X.C(s1[2]) - X.C(s1[1]), X.C(s2[2]) - X.C(s2[1])
-        if abs(d1.real * d2.imag - d1.imag * d2.real) <= 1e-9 * abs(d1) * abs(d2):
+        if abs(d1.real * d2.imag - d1.imag * d2.real) <= 1e-6 * abs(d1) * abs(d2):
             ctx.discard('parallel/collinear lines (overlap excluded by the docstring)')
     if s1 == s2:
         ctx.discard('identical segments')
